@@ -452,6 +452,8 @@ class Interp:
                 return BV.const(int(op["val"]), w)
             if op.get("str") is not None:
                 return op["str"]
+            if op.get("variant") is not None:
+                return self.enum_value(op["ty"], op["variant"])
             if op["ty"] == "()":
                 return ()
             return TOP
